@@ -84,3 +84,57 @@ Definition failing (spied : list nat) (ks : list case) : list nat := failing_fro
 
 (* counts used by the harness for its evidence: how the model classifies each case *)
 Definition sat_flags (ks : list case) : list bool := map (fun k => sat pb_table (k_hint k) (k_val k)) ks.
+
+(* ------------------------------------------------------------------ structural correspondence:
+   the real generated code, parsed into an [expr] by harness/translate/parse_generated.py,
+   must be the very term the model generator produces (class tuples compared as sets) *)
+Definition cls_set_eqb (a b : list nat) : bool :=
+  forallb (fun x => existsb (Nat.eqb x) b) a && forallb (fun x => existsb (Nat.eqb x) a) b.
+
+Fixpoint expr_eqb (a b : expr) : bool :=
+  match a, b with
+  | EVar x, EVar y => var_eqb x y
+  | ERand, ERand | ETrue, ETrue => true
+  | EInt x, EInt y => Z.eqb x y
+  | ELit x, ELit y => val_same x y || py_eq x y   (* vale factories are memoised by ==: IsEqual[True] is IsEqual[1] *)
+  | EIsInst e cs, EIsInst f ds | EIsSub e cs, EIsSub f ds => expr_eqb e f && cls_set_eqb cs ds
+  | ELen e, ELen f | EFirst e, EFirst f | EFirstValue e, EFirstValue f | ENot e, ENot f => expr_eqb e f
+  | EIndex e i, EIndex f j | EMod e i, EMod f j | EEq e i, EEq f j | EIs e i, EIs f j
+  | EAnd e i, EAnd f j | EOr e i, EOr f j => expr_eqb e f && expr_eqb i j
+  | EWalrus x e, EWalrus y f | ELet x e, ELet y f => var_eqb x y && expr_eqb e f
+  | ECallPred g e, ECallPred k f => Nat.eqb g k && expr_eqb e f
+  | EAttrLet x e n, EAttrLet y f m => var_eqb x y && expr_eqb e f && String.eqb n m
+  | _, _ => false
+  end.
+
+(* `(x := e) is x` is one idiom whether it comes from one template or from an assignment
+   expression spliced into `{assign} is {var}` *)
+Fixpoint canon_is (e : expr) : expr :=
+  match e with
+  | EIs (EWalrus x a) (EVar y) => if var_eqb x y then ELet x (canon_is a) else EIs (EWalrus x (canon_is a)) (EVar y)
+  | EIs a b => EIs (canon_is a) (canon_is b)
+  | EIsInst a cs => EIsInst (canon_is a) cs
+  | EIsSub a cs => EIsSub (canon_is a) cs
+  | ELen a => ELen (canon_is a)
+  | EIndex a b => EIndex (canon_is a) (canon_is b)
+  | EMod a b => EMod (canon_is a) (canon_is b)
+  | EFirst a => EFirst (canon_is a)
+  | EFirstValue a => EFirstValue (canon_is a)
+  | EEq a b => EEq (canon_is a) (canon_is b)
+  | ENot a => ENot (canon_is a)
+  | EAnd a b => EAnd (canon_is a) (canon_is b)
+  | EOr a b => EOr (canon_is a) (canon_is b)
+  | EWalrus x a => EWalrus x (canon_is a)
+  | ELet x a => ELet x (canon_is a)
+  | ECallPred f a => ECallPred f (canon_is a)
+  | EAttrLet x a n => EAttrLet x (canon_is a) n
+  | EVar _ | ERand | EInt _ | ELit _ | ETrue => e
+  end.
+
+Definition struct_failing (ks : list (bool * hint * expr)) : list nat :=
+  (fix go (i : nat) (l : list (bool * hint * expr)) : list nat :=
+     match l with
+     | [] => []
+     | (rnd, h, real) :: l' =>
+         if expr_eqb (canon_is (check_expr {| is_random := rnd |} h)) (canon_is real) then go (S i) l' else i :: go (S i) l'
+     end) 0 ks.
